@@ -492,12 +492,13 @@ func c13Narrowing(w *World, r *Report) {
 	}
 	vrb := w.Method("compile", "Compiler", "validateRangeBoundaries")
 	vfd, _ := w.FuncDecl(vrb)
-	got := describe(vfd)
+	_ = describe
+	got := c13BoundaryTests(w, w.SSAFunc(vrb), cerr)
 	want := []string{
-		"!LessThan(GetEnd(<1>-1),GetStart(<1>))",
-		"GreaterThan(GetStart(<1>-1),GetStart(<1>))",
+		"!LessThan(GetEnd(i-1),GetStart(i))",
+		"GreaterThan(GetStart(i-1),GetStart(i))",
 		"LessThan(GetEnd(0),GetStart(0))",
-		"LessThan(GetEnd(<1>),GetStart(<1>))",
+		"LessThan(GetEnd(i),GetStart(i))",
 	}
 	sort.Strings(want)
 	r.Check(strings.Join(got, " ; ") == strings.Join(want, " ; "), "R13.4", "validateRangeBoundaries tests", vfd.Pos(), strings.Join(got, " ; "),
@@ -1094,4 +1095,106 @@ func c13LengthNarrowing(w *World, r *Report, pos token.Pos) {
 		}
 	}
 	r.Check(!bad.IsValid() && nScan >= 2, "R13.4", "getLength subset test uses resolved bounds", pos, "lb.Start >= rangeMin && lb.End <= rangeMax", "the subset-of-a-base-part test reads the parsed boundary (which is 0 for min/max keywords) instead of the resolved one ("+w.PosStr(bad)+"): \"5..max\" over \"1..10 | 20..30\" is accepted across the gap")
+}
+
+// c13BoundaryTests lists the comparisons of range boundaries in f whose
+// outcome leads to an error exit, each written as [!]Method(left,right) with
+// the operands named by what they read: GetStart/GetEnd of part 0, of the
+// loop's part i, or of its predecessor i-1.
+func c13BoundaryTests(w *World, f *ssa.Function, cerr *types.Func) []string {
+	if f == nil {
+		return nil
+	}
+	operand := func(v ssa.Value) string {
+		c, ok := v.(*ssa.Call)
+		if !ok || !c.Call.IsInvoke() || len(c.Call.Args) != 1 {
+			return "?"
+		}
+		n := c.Call.Method.Name()
+		if n != "GetStart" && n != "GetEnd" {
+			return "?"
+		}
+		idx := "?"
+		switch x := c.Call.Args[0].(type) {
+		case *ssa.Const:
+			if k, ok := intConstOf(x); ok {
+				idx = fmt.Sprint(k)
+			}
+		case *ssa.Phi:
+			idx = "i"
+		case *ssa.BinOp:
+			if one, ok := intConstOf(x.Y); ok && one == 1 {
+				if _, isPhi := x.X.(*ssa.Phi); isPhi {
+					if x.Op == token.SUB {
+						idx = "i-1"
+					} else if x.Op == token.ADD {
+						idx = "i+1"
+					}
+				}
+			}
+		}
+		return n + "(" + idx + ")"
+	}
+	errorIn := func(b *ssa.BasicBlock) bool {
+		for _, eb := range f.Blocks {
+			if !b.Dominates(eb) {
+				continue
+			}
+			for _, in := range eb.Instrs {
+				if c, ok := in.(ssa.CallInstruction); ok && c.Common().StaticCallee() != nil && c.Common().StaticCallee().Object() == types.Object(cerr) {
+					return true
+				}
+			}
+		}
+		return false
+	}
+	set := map[string]bool{}
+	for _, b := range f.Blocks {
+		for _, in := range b.Instrs {
+			c, ok := in.(*ssa.Call)
+			if !ok || !c.Call.IsInvoke() || len(c.Call.Args) != 2 {
+				continue
+			}
+			m := c.Call.Method.Name()
+			if m != "LessThan" && m != "GreaterThan" && m != "Contiguous" {
+				continue
+			}
+			for _, ref := range *c.Referrers() {
+				var ifi *ssa.If
+				neg := false
+				switch x := ref.(type) {
+				case *ssa.If:
+					ifi = x
+				case *ssa.UnOp:
+					if x.Op == token.NOT {
+						for _, r2 := range *x.Referrers() {
+							if y, ok := r2.(*ssa.If); ok {
+								ifi, neg = y, true
+							}
+						}
+					}
+				}
+				if ifi == nil {
+					continue
+				}
+				tSucc, fSucc := ifi.Block().Succs[0], ifi.Block().Succs[1]
+				if neg {
+					tSucc, fSucc = fSucc, tSucc
+				}
+				desc := m + "(" + operand(c.Call.Args[0]) + "," + operand(c.Call.Args[1]) + ")"
+				if len(tSucc.Preds) == 1 && errorIn(tSucc) {
+					set[desc] = true
+				}
+				if len(fSucc.Preds) == 1 && errorIn(fSucc) {
+					set["!"+desc] = true
+				}
+			}
+		}
+	}
+	var out []string
+	for k := range set {
+		out = append(out, k)
+	}
+	sort.Strings(out)
+	return out
 }
